@@ -18,27 +18,30 @@ MANIFEST = dict(
               'HTML generator whose filters, escape function, autoescape configuration, template names, template skeletons, output-site '
               'table and macro call structure are re-translated from /repo on every run; extracted model vs. real '
               '`nnvg --target-language html` output compared as html.parser token streams',
-    text='Theorems in coq/theories/Properties/C20.v. Escaping: both escape functions in use (html.escape model, translated markupsafe '
-         'escape) leave no <, >, quote or stray & and are inverted by entity decoding, for every string; a documentation sink is '
-         'character data for every text iff it escapes (unescaped sink refuted by witness <script>alert(1)</script>; this was finding '
-         'F-HTML-ESCAPE, fixed in /repo by `| e` on the five sinks); all_dsdl_text_sinks_escaped holds of the regenerated table of '
-         'every {{ }} output site (expression parsed with Jinja operator precedence, looked through {% set %} variables and macro '
-         'arguments, `safe` tracked): each site is a template constant, number, DSDL identifier, escaped AS A WHOLE, or display_type '
-         'markup in a text position. Well-formedness: the checker skeleton_balanced is sound for every instantiation of a template '
-         'skeleton (any branches, loop counts, attributes, text, balanced site contents, macro calls/includes incl. recursion), every '
-         'regenerated skeleton of every template/macro passes, and scanning the rendered characters gives a well-formed token stream '
-         'when inserted values cannot open markup; the hand-mirrored emitter (exact ids/hrefs/text) is balanced for every tree and '
-         'state, and the regenerated call/guard structure of the macros equals the inlining structure it assumes. Links: the anchor in '
-         'a type URL is filter_tag_id (both translated); every listed type has its id on its namespace page; on a root-namespace page '
-         'every type link resolves for every site closed under references; nested-namespace pages and service request/response halves '
-         'are decided per state of the working tree (findings F-HTML-LINK-SUBNS, F-HTML-LINK-SVC live now; patch in '
-         'design_notes/C20_links_fix.patch makes both theorems evaluate to "resolves").',
+    text='Theorems in coq/theories/Properties/C20.v (history of fixed findings in coq/theories/History/C20_history.v). Escaping: both '
+         'escape functions in use leave no <, >, quote or stray & and are inverted by entity decoding, for every string; a documentation '
+         'sink is character data for every text iff it escapes. Output sites of the REAL templates: the translator regenerates for every '
+         '{{ }} site the expression AST (Jinja precedence), all variable bindings ({% set %}, parameter defaults, call-site arguments) and '
+         'a class certificate; Coq recomputes every class from visible whitelists, checks the certificate as an inductive invariant '
+         '(sinks_classified_safe, vm_compute), the classifier is proved sound for an evaluation relation in which documentation, unknown '
+         'attributes/filters and unbound names are arbitrary strings (cls_expr_sound), hence every value a site can print is free of < > '
+         'and quotes or is display_type markup in a text position (html_site_values_ok). filter_display_type is translated and proved to '
+         'render exactly the emitter pieces. Well-formedness: skeleton_balanced is sound for every instantiation of a template skeleton '
+         'and every regenerated skeleton passes; the emitter pages are balanced for every tree, and -- without any per-page check -- '
+         'pieces_ok holds of every namespace page whose non-documentation strings are quote_free (DSDL grammar) when the doc sinks '
+         'escape, so the scanned character stream is well-formed for arbitrary documentation (ns_page_wf_now). Links: UNIVERSAL theorem '
+         '-- for every site closed under references, every page at ANY namespace depth, every hyperlink (sidebar, type links incl. array '
+         'elements and service halves), the relative href resolved against the page directory lands on a generated index page and its '
+         'fragment is an id of that page (links_resolve_universal / _now; URL algebra by induction on path lists); the regenerated '
+         'call/guard structure of the macros equals the inlining structure of the emitter.',
     note='Trusted: Coq kernel; T2 translator tools/translators/gen_c20.py on pyfun_tr.py (filters) and its template scanner (Jinja '
          'lexer, HTML state machine, Jinja expression parser/classifier; fails closed on constructs it cannot classify); extraction '
          '(ExtrOcamlBasic only) + ocaml/c20_driver.ml; Python html.parser as reference tokenizer of oracle and correspondence. The '
          'emitter model Gen/HtmlModel.v is validated against the real output on every run (namespace trees up to six levels deep, '
          'cross-root and deep cross-level references), not verified. Numbers printed by the templates are canonicalised away. '
-         'Not proved: a general any-depth link-resolution theorem for the patched state (witness sites + correspondence only).',
+         'Hypotheses that remain and are stated: identifiers / type expressions / printed numbers are quote_free (DSDL grammar, `nst_ok`, '
+         'side conditions of `evals`); referenced composites are listed under a generated root namespace (`ref_resolves`, pydsdl). '
+         'Type pages (type_base.j2) are covered by the skeleton theorems and the oracle, not by the unconditional pieces_ok theorem.',
     design='§5 C20')
 
 HARNESS = os.path.join(core.VERIF, 'tools', 'harness', 'c20_impl.py')
